@@ -221,7 +221,7 @@ Proof.
   destruct (sem_free w (k_finish c0)); cbn [length]; lia.
 Qed.
 
-(* every call that returned before the semaphore was taken is followed by the next one *)
+(* every call that returned before the flag was set is followed by the next one *)
 Lemma cut_keeps : forall w cs k cl,
   nth_error cs k = Some cl ->
   (forall j cj, (j < k)%nat -> nth_error cs j = Some cj -> sem_free w (k_finish cj) = true) ->
@@ -403,7 +403,7 @@ Inductive deliver_course (c : config) (e : env) (evs : list event) (sp : spropos
     let plans := plans_from (e_deadline e) (candidates c w a) 0 (e_relays e) in
     let fd := first_delivery plans in
     o_panic res = false -> o_events res = evs ->
-    o_unblind res = calls_of (request_at sp fd (e_deadline e)) fd plans ->
+    o_unblind res = calls_of (fun _ => unblind_request sp) fd plans ->
     (match fd with
      | Some t =>
          if t <? e_deadline e then
@@ -458,8 +458,7 @@ Lemma deliver_call : forall c e evs sp i calls k st rq,
   nth_error (o_unblind (deliver_phase c e evs sp)) i = Some calls ->
   nth_error calls k = Some (st, rq) ->
   sp_blinded sp = true
-  /\ (rq = unblind_request sp
-      \/ (rq = late_request sp /\ exists t sp', o_submit (deliver_phase c e evs sp) = Some (t, sp') /\ t < st))
+  /\ rq = unblind_request sp
   /\ (length calls <= 3)%nat
   /\ exists w a rl cl,
        auction_results e = Some (w, a) /\ In i (candidates c w a)
@@ -471,12 +470,7 @@ Proof.
   - cbn [o_unblind] in H. apply no_calls_nth in H; subst; destruct k; discriminate.
   - cbn [o_unblind stop] in H. apply no_calls_nth in H; subst; destruct k; discriminate.
   - rewrite Hu in H. destruct (calls_of_nth _ _ _ _ _ _ _ _ H Hk) as (-> & cs & cl & Hp & Hcut & Hst & Hlen).
-    split; [exact Hb|]. split.
-    { unfold request_at. destruct fd as [t|]; [|left; reflexivity].
-      destruct (full_container (sp_version sp)) as [fc|]; [|left; reflexivity].
-      destruct (t <? e_deadline e) eqn:Hdl; cbn [andb]; [|left; reflexivity].
-      destruct (t <? st) eqn:Hlate; [|left; reflexivity].
-      right. split; [reflexivity|]. destruct Hsub as (_ & Hsub). eexists t, _. split; [exact Hsub|lia]. }
+    split; [exact Hb|]. split; [reflexivity|].
     unfold plans in Hp. apply plans_from_nth in Hp as (rl & Hrl & ->). cbn [Nat.add] in *.
     pose proof (cut_prefix _ _ _ _ Hcut) as Hfree.
     destruct (relay_plan_nonempty _ _ _ _ _ _ Hfree) as (Hin & Hcan & Heq).
@@ -523,16 +517,13 @@ Proof.
       pose proof (free_calls_order _ _ _ _ _ _ _ _ Hn Hk Hj') as Hord.
       pose proof (finish_ge_start (e_deadline e) (k_start cl) (fst (script_nth (r_script rl) k)) (k_out cl)).
       apply N.ltb_lt. lia. }
-    exists j, rl, (map (fun k0 => (k_start k0, request_at sp (Some t0) (e_deadline e) (k_start k0))) (cut (Some t0) (relay_plan (e_deadline e) (candidates c w a) j rl))), k, (k_start cl), fc.
+    exists j, rl, (map (fun k0 => (k_start k0, unblind_request sp)) (cut (Some t0) (relay_plan (e_deadline e) (candidates c w a) j rl))), k, (k_start cl), fc.
     repeat split; auto.
     + rewrite Hu. unfold calls_of. rewrite nth_error_map.
       assert (Hpl : nth_error plans j = Some (relay_plan (e_deadline e) (candidates c w a) j rl)).
       { unfold plans. apply (plans_from_nth_some _ _ _ 0%nat j rl Hrl). }
       fold fd in Hpl. rewrite <- Hfd. unfold fd. rewrite Hpl. reflexivity.
-    + rewrite nth_error_map, Hcut. cbn [option_map]. f_equal. f_equal.
-      unfold request_at. rewrite Hfc.
-      pose proof (finish_ge_start (e_deadline e) (k_start cl) (fst (script_nth (r_script rl) k)) (k_out cl)).
-      assert (Hnl : (t0 <? k_start cl) = false) by lia. rewrite Hnl, andb_false_r. reflexivity.
+    + rewrite nth_error_map, Hcut. reflexivity.
     + rewrite <- Hout. exact Hok.
     + rewrite <- Hfin, Hfinish. rewrite Hout in *. unfold finish_of.
       destruct (snd (script_nth (r_script rl) k)); try discriminate; reflexivity.
@@ -896,9 +887,7 @@ Lemma unblind_requests : forall c e d i calls k st rq,
     d_account d = Some acct /\ e_proposal e = POk pr /\ p_blinded pr = true
     /\ p_block pr = Some h /\ h_slot h = d_slot d /\ e_sig_block e = Some sig
     /\ signed_container (p_version pr) true = Some code
-    /\ (rq = unblind_request (signed_proposal pr h sig code)
-        \/ (rq = late_request (signed_proposal pr h sig code)
-            /\ exists t sp', o_submit (propose c e d) = Some (t, sp') /\ t < st))
+    /\ rq = unblind_request (signed_proposal pr h sig code)
     /\ In (sign_block_event c d acct h) (o_events (propose c e d))
     /\ e_auction e = AOk w a /\ In i (candidates c w a)
     /\ nth_error (e_relays e) i = Some rl /\ r_can rl = true
@@ -1139,4 +1128,51 @@ Proof.
       * destruct Hs as (-> & _). lia.
       * destruct Hs as (-> & _). lia.
     + destruct Hs as (-> & _). lia.
+Qed.
+
+(* ------------------------------------------------------------------------------------------- *)
+(* a full block that comes back in time is submitted, without waiting for the other relays *)
+
+(* Every call that is made and is answered with a full block before the deadline has something
+   submitted no later than the instant it returns -- whatever the other relays do (hang until the
+   context ends, fail, answer later, never give up).  With [blinded_submit_from_relay] (what is
+   submitted was delivered at the instant of the submission): the submission is the earliest full
+   block, the moment it is back. *)
+Lemma full_block_in_time_submitted : forall c e d pr i rl calls k st rq fc,
+  e_proposal e = POk pr -> full_container (p_version pr) = Some fc ->
+  nth_error (e_relays e) i = Some rl ->
+  nth_error (o_unblind (propose c e d)) i = Some calls ->
+  nth_error calls k = Some (st, rq) ->
+  is_ok (snd (script_nth (r_script rl) k)) = true ->
+  st + fst (script_nth (r_script rl) k) < e_deadline e ->
+  exists t sp, o_submit (propose c e d) = Some (t, sp) /\ t <= st + fst (script_nth (r_script rl) k).
+Proof.
+  intros c e d pr i rl calls k st rq fc Hp Hfc Hrl Hc Hk Hok Hlt.
+  destruct (sign_phase c e d) as [evs [[p sp0]|]] eqn:Hsp.
+  2:{ rewrite (propose_unsigned _ _ _ _ Hsp) in Hc. apply stop_unblind_nth in Hc; subst; destruct k; discriminate. }
+  destruct (propose_signed _ _ _ _ _ _ Hsp) as (Heq & acct & h & sig & code & _ & _ & (Hp' & _) & _ & _ & _ & -> & _).
+  rewrite Hp in Hp'; injection Hp' as <-. rewrite Heq in *.
+  destruct (deliver_call _ _ _ _ _ _ _ _ _ Hc Hk) as (Hbl & _ & _ & w & a & rl' & cl & Hau & Hin & Hrl' & Hcan & Hfree & Hst).
+  rewrite Hrl in Hrl'; injection Hrl' as <-.
+  pose proof (free_calls_nth _ _ _ _ _ _ Hfree) as (_ & Hout & Hfin & _).
+  assert (Hokc : is_ok (k_out cl) = true) by (rewrite Hout; exact Hok).
+  assert (Hf : k_finish cl = st + fst (script_nth (r_script rl) k)).
+  { rewrite Hfin, Hst. unfold finish_of. destruct (k_out cl); try discriminate; reflexivity. }
+  destruct (deliver_phase_course c e evs (signed_proposal pr h sig code)) as [Hb|Hb _|w' a' res Hb Ha Hcc plans fd _ _ _ Hs].
+  - congruence.
+  - apply stop_unblind_nth in Hc; subst; destruct k; discriminate.
+  - rewrite Hau in Ha. injection Ha as <- <-.
+    pose proof (plans_from_nth_some (e_deadline e) (candidates c w a) (e_relays e) 0%nat i rl Hrl) as Hplan.
+    cbn [Nat.add] in Hplan. fold plans in Hplan.
+    assert (Hdel : delivery (relay_plan (e_deadline e) (candidates c w a) i rl) = Some (k_finish cl)).
+    { unfold relay_plan. assert (He : existsb (Nat.eqb i) (candidates c w a) = true)
+        by (apply existsb_exists; exists i; split; [exact Hin|apply Nat.eqb_refl]).
+      rewrite He, Hcan. cbn [andb]. eapply plan_ok_delivery; eauto. }
+    destruct fd as [t0|] eqn:Hfd.
+    2:{ pose proof (first_delivery_none plans Hfd i _ Hplan) as Hn. congruence. }
+    destruct (first_delivery_some plans t0 Hfd) as (_ & Hmin).
+    pose proof (Hmin i _ _ Hplan Hdel) as Hle.
+    assert (Hdl : (t0 <? e_deadline e) = true) by (apply N.ltb_lt; lia).
+    rewrite Hdl in Hs. destruct Hs as (_ & Hs). cbn [sp_version signed_proposal] in Hs. rewrite Hfc in Hs.
+    eexists t0, _. split; [exact Hs|lia].
 Qed.
